@@ -99,6 +99,7 @@ class ClassInfo:
     methods: dict[str, FuncInfo] = field(default_factory=dict)
     class_attrs: dict[str, ast.expr] = field(default_factory=dict)
     outer: Optional["ClassInfo"] = None
+    fields: list[tuple[str, Optional[ast.expr]]] = field(default_factory=list)   # annotated names, in order
 
 
 class ProgramModel:
@@ -186,8 +187,11 @@ class ProgramModel:
                 for t in st.targets:
                     if isinstance(t, ast.Name):
                         ci.class_attrs[t.id] = st.value
-            elif isinstance(st, ast.AnnAssign) and isinstance(st.target, ast.Name) and st.value:
-                ci.class_attrs[st.target.id] = st.value
+            elif isinstance(st, ast.AnnAssign) and isinstance(st.target, ast.Name):
+                if "ClassVar" not in ast.unparse(st.annotation):
+                    ci.fields.append((st.target.id, st.value))
+                if st.value:
+                    ci.class_attrs[st.target.id] = st.value
             elif isinstance(st, ast.ClassDef):
                 self._index_class(u, st, ci)
         self.classes[qual] = ci
@@ -299,6 +303,30 @@ class ProgramModel:
         for k, v in ci.class_attrs.items():
             if isinstance(v, ast.Constant):
                 out[k] = v.value
+        return out
+
+    def record_kind(self, ci: ClassInfo) -> Optional[tuple[str, dict[str, bool]]]:
+        """('dataclass', options) / ('namedtuple', {}) for classes whose __init__ is synthesised from the
+        annotated fields; None otherwise."""
+        for c in self.mro(ci):
+            for d in c.node.decorator_list:
+                txt = ast.unparse(d)
+                if txt.split("(")[0] in ("dataclass", "dataclasses.dataclass"):
+                    opts: dict[str, bool] = {}
+                    if isinstance(d, ast.Call):
+                        for k in d.keywords:
+                            if k.arg and isinstance(k.value, ast.Constant):
+                                opts[k.arg] = bool(k.value.value)
+                    return ("dataclass", opts)
+            if any(b.split(".")[-1] == "NamedTuple" for b in c.bases):
+                return ("namedtuple", {})
+        return None
+
+    def record_fields(self, ci: ClassInfo) -> list[tuple[str, Optional[ast.expr]]]:
+        out: list[tuple[str, Optional[ast.expr]]] = []
+        for c in reversed(self.mro(ci)):
+            for nm, d in c.fields:
+                out = [(n2, d2) for n2, d2 in out if n2 != nm] + [(nm, d)]
         return out
 
     def is_enum(self, ci: ClassInfo) -> bool:
